@@ -9,7 +9,7 @@ cd /verif
 git -C /repo worktree add --detach -q "$WT" HEAD || exit 2
 trap 'git -C /repo worktree remove --force "$WT" 2>/dev/null; rm -rf "$WT"' EXIT INT TERM
 for d in seeded/*${SEL}*/; do
-  id=$(basename "$d"); prop=$(python3 -c "import json;print(json.load(open('$d/meta.json'))['property'])")
+  id=$(basename "$d"); prop=$(python3 -c "import json;m=json.load(open('$d/meta.json'));print(m.get('checked_by') or m['property'])")
   [ -f harness/$(echo $prop | tr A-Z a-z).py ] || { echo "$id: no harness for $prop"; continue; }
   if ! git -C "$WT" apply "$PWD/$d/patch.diff" 2>/dev/null; then echo "$id: patch does not apply"; continue; fi
   out=$(VERIF_REPO="$WT" VERIF_FAIL_FAST=1 bin/check $prop $TIER --no-evidence 2>&1); rc=$?
